@@ -127,7 +127,7 @@ func init() {
 }
 
 func init() {
-	rule := "bounded operation histories of the real in-flight handler (constructor, enqueue, deliver, close) for N in {1,2,3}: every sequence of depth 4 (thorough 6) over {send, deliver final, deliver non-final page, deliver for unknown id, close} with every choice of target request is one path; managed and caller-chosen id families"
+	rule := "bounded operation histories of the real in-flight handler (constructor, enqueue, deliver, close) for N in {1,2,3}: every sequence of depth 4 (thorough 5) over {send, deliver final, deliver non-final page, deliver for unknown id, close} with every choice of target request is one path; managed and caller-chosen id families"
 	register(&PropCheck{ID: "C09", Pkgs: []string{"client"}, FnRe: `^VerifC09_`, Level: "model_checking", Rule: rule})
 	register(&PropCheck{ID: "C10", Pkgs: []string{"client"}, FnRe: `^VerifC10_`, Level: "model_checking", Rule: rule})
 }
